@@ -60,7 +60,8 @@ def build(V, F, visual):
     elif visual == "vertex":
         m.visual.vertex_colors = np.array([vcol(u) for u in range(len(V))], dtype=np.uint8)
     elif visual == "texture":
-        uv = np.array([[u / 16.0, 1 - u / 16.0] for u in range(len(V))])
+        # texture coordinates 0.01 apart: distinct at the default 4 digits, equal at 1 digit
+        uv = np.array([[u * 0.01, 1 - u * 0.01] for u in range(len(V))])
         m.visual = trimesh.visual.TextureVisuals(uv=uv)
     m.face_attributes["tag"] = np.arange(len(F))
     m.vertex_attributes["vtag"] = np.arange(len(V))
@@ -81,7 +82,7 @@ def vertex_tags(m, visual, use_attr):
         c = np.asarray(m.visual.vertex_colors)
         return (c[:, 0].astype(int) - 100) if len(c) else np.array([], dtype=int)
     if visual == "texture" and m.visual.kind == "texture" and m.visual.uv is not None and len(m.visual.uv) == len(m.vertices):
-        return np.round(np.asarray(m.visual.uv)[:, 0] * 16).astype(int)
+        return np.round(np.asarray(m.visual.uv)[:, 0] * 100).astype(int)
     if use_attr and "vtag" in m.vertex_attributes and len(m.vertex_attributes["vtag"]) == len(m.vertices):
         return np.asarray(m.vertex_attributes["vtag"]).astype(int)
     return None
@@ -203,14 +204,29 @@ def run_ops(t, V, F, visual, cfg, tier):
     cc = cfg_class(cfg)
     # 1. merge_vertices
     for mt, mn, dg, rn in itertools.product((None, True), (None, True), (None, 0, 4), (False, True)):
-        case = dict(base, op="merge_vertices", merge_tex=mt, merge_norm=mn, digits=dg, read_normals=rn)
-        m = fresh(rn)
-        ok, _ = guard("merge_vertices", case, lambda: m.merge_vertices(merge_tex=mt, merge_norm=mn, digits_vertex=dg))
-        if ok:
-            tol = 0.5 * 10.0 ** -(dg if dg is not None else 8) + 1e-12
-            if dg == 0:
-                tol = 0.51
-            check_result(t, V, F, visual, m, f"merge_vertices [{cc}]", case, tol=tol, require_all_faces=True)
+        # the digits of the normal / texture part of the merge key, each on its own (texture meshes only)
+        for dn, du in ((None, None), (1, None), (None, 6)) if visual == "texture" else ((None, None),):
+            case = dict(base, op="merge_vertices", merge_tex=mt, merge_norm=mn, digits=dg, read_normals=rn, digits_norm=dn, digits_uv=du)
+            m = fresh(rn)
+            kw = {}
+            if dn is not None:
+                kw["digits_norm"] = dn
+            if du is not None:
+                kw["digits_uv"] = du
+            ok, _ = guard("merge_vertices", case, lambda: m.merge_vertices(merge_tex=mt, merge_norm=mn, digits_vertex=dg, **kw))
+            if ok:
+                tol = 0.5 * 10.0 ** -(dg if dg is not None else 8) + 1e-12
+                if dg == 0:
+                    tol = 0.51
+                check_result(t, V, F, visual, m, f"merge_vertices [{cc}]", case, tol=tol, require_all_faces=True)
+                if visual == "texture" and mt is None and m.visual.kind == "texture" and m.visual.uv is not None:
+                    # texture coordinates take part in the merge: every face corner keeps exactly its own
+                    F1 = np.asarray(m.faces).reshape(-1, 3)
+                    uv1 = np.asarray(m.visual.uv)
+                    if len(F1) == len(F) and len(uv1) == len(m.vertices) and len(F1) and F1.max() < len(uv1):
+                        got_uv = np.round(uv1[F1][:, :, 0] * 100).astype(int)
+                        if not (got_uv == np.asarray(F)).all():
+                            t.violation(f"merge_vertices: a face corner takes the texture coordinate of another vertex [{cc}]", case, {"corner_tags": got_uv, "faces": np.asarray(F)})
     # 2. update_faces: all masks
     for kind, mask in masks_for(nf):
         for rn in (False, True):
@@ -314,6 +330,7 @@ def run_ops(t, V, F, visual, cfg, tier):
                                 t.violation(f"split then concatenate does not reproduce the triangle multiset [{cc}]", case, {"n_got": len(got), "n_want": len(want)})
                             elif cat is not None and len(parts):
                                 check_result(t, V, F, visual, cat, f"concatenate(split parts) [{cc}]", case, use_attr=False, order="any")
+        check_concat_faceless(t, V, F, visual, base, cc, build, guard)
         # concatenate two tagged meshes: second one's tags shifted
         case = dict(base, op="concatenate")
         a, b = fresh(False), build(V + 10.0, F, visual)
@@ -332,6 +349,27 @@ def run_ops(t, V, F, visual, cfg, tier):
                 c = np.asarray(cat.visual.vertex_colors)
                 if c[:, 0].tolist() != [100 + i for i in range(nv)] * 2:
                     t.violation(f"concatenate: vertex colours are attached to different vertices [{cc}]", case, {"got": c[:, 0].tolist()})
+
+
+def check_concat_faceless(t, V, F, visual, base, cc, build, guard):
+    """concatenate with a member that has vertices but no faces, in every position."""
+    import trimesh
+
+    nv, nf = len(V), len(F)
+    a, b = build(V, F, visual), build(V + 10.0, F, visual)
+    lone = trimesh.Trimesh(vertices=V[:2] + 20.0, faces=np.zeros((0, 3), dtype=np.int64), process=False)
+    for pos in (0, 1, 2):
+        members = [a.copy(), b.copy()]
+        members.insert(pos, lone.copy())
+        case = dict(base, op="concatenate with a faceless member", position=pos)
+        ok, cat = guard("concatenate", case, lambda: trimesh.util.concatenate(members))
+        if not ok:
+            continue
+        want = np.vstack([V[F], (V + 10.0)[F]])
+        F1 = np.asarray(cat.faces)
+        got = np.asarray(cat.vertices)[F1] if len(F1) else np.zeros((0, 3, 3))
+        if got.shape != want.shape or not eq_pos(got, want, 0):
+            t.violation(f"concatenate with a member that has vertices but no faces moves triangles [{cc}]", case, {"n_got": len(got), "n_want": len(want)})
 
 
 def check_rewound(t, V, F, visual, m, key, case):
